@@ -42,7 +42,10 @@ def generate(rng, tier):
             kind = "accept"; pres = proof; su = user; sK = K; scs = cseed; sss = sseed
             if r < 0.1: kind = "proof-bit-flip"; pres = flip(proof, rng.randrange(160))
             elif r < 0.15: kind = "proof-two-place-change"; pres = rng.choice(two_place_flips(rng, proof, 4))
-            elif r < 0.3: kind = "key-bit-flip"; sK = flip(K, rng.randrange(320))
+            elif r < 0.24: kind = "key-bit-flip"; sK = flip(K, rng.randrange(320))
+            elif r < 0.3:
+                kind = "key-symmetry-relative"; sK = rng.choice([K[::-1], K[20:] + K[:20], bytes(K[i ^ 1] for i in range(40)), K[1:] + K[:1]])
+                if sK == K: kind = "accept"
             elif r < 0.4:
                 kind = "other-name"; su = cred(rng)
                 if rng.random() < 0.5:   # names that differ only in trailing / leading blanks or punctuation
